@@ -37,7 +37,7 @@ func runC09(r *vc.Run, replay string) {
 	}
 	cfgs := []atUndoCfg{
 		{Serializer: "json", Compress: "None", Validation: true, OnlyCare: true},
-		{Serializer: "json", Compress: "None", Validation: true, OnlyCare: false},
+		{Serializer: "json", Compress: "None", Validation: true, OnlyCare: false, Loc: "America/Bogota"},
 		{Serializer: "json", Compress: "None", Validation: false, OnlyCare: true},
 	}
 	if r.Tier == "thorough" {
